@@ -67,7 +67,7 @@ def violation(prob, w, strategy="subdiff", family="cd"):
     wv, b = split(prob, w)
     g, gb = gradients(prob, w)
     pen = prob["penalty"]
-    if strategy == "fixpoint" and pen["kind"] in P.PIECEWISE and wv.ndim == 1:
+    if strategy == "fixpoint" and pen["kind"] in P.PIECEWISE + P.SCALAR_OTHER and wv.ndim == 1:
         L = cd_lipschitz(prob, w, family)
         d = np.zeros(len(wv))
         sd = None
@@ -78,7 +78,7 @@ def violation(prob, w, strategy="subdiff", family="cd"):
                 d[j] = sd[j]
                 continue
             s = 1.0 / L[j]
-            us, _ = P.tab_prox_set(P.table(pen, j), float(wv[j] - s * g[j]), s)
+            us, _ = P.prox_scalar(pen, float(wv[j] - s * g[j]), s, j)
             d[j] = min(abs(wv[j] - u) for u in us)
     elif strategy == "fixpoint" and pen["kind"] in ("L2_1", "WeightedGroupL2", "WeightedL1GroupL2",
                                                      "BlockMCPenalty", "BlockSCAD"):
